@@ -328,6 +328,22 @@ def lstsq_balls(chk, shapes):
                                 chk.prove_eq(f"{tag}:system_row_is_outward_edge_normal[{i}][{t}]", fkey, p.pc, Arow[i] * nrm, cr[i])
                             chk.prove_eq(f"{tag}:system_rhs_is_normal_dot_edge_start[{t}]", fkey, p.pc, brow[0],
                                          sum(Arow[i] * vm(k, sp.Integer(i)) for i in range(3)))
+                    if cls_name == "Polygon":
+                        # the appended last row keeps the centre in the polygon's plane
+                        la, lb = _last_row(A), _last_row(b)
+                        nn = [sp.Symbol(f"nm{j}", real=True) for j in range(3)]
+                        vm = sp.Function("Vm", real=True)
+                        for i in range(3):
+                            chk.prove_eq(f"{tag}:plane_row_is_the_normal[{i}][{t}]", fkey, p.pc, la[i], nn[i])
+                        if member == "circumcircle":
+                            # unknown is the centre relative to the first vertex: n . x = 0
+                            chk.prove_eq(f"{tag}:plane_row_rhs[{t}]", fkey, p.pc, lb[0], 0)
+                        else:
+                            # unknown is the absolute centre (and r with coefficient 0): n . c = n . v0
+                            chk.prove_eq(f"{tag}:plane_row_radius_coefficient_is_zero[{t}]", fkey, p.pc, la[3], 0)
+                            chk.prove_eq(f"{tag}:plane_row_rhs[{t}]", fkey, p.pc, lb[0],
+                                         sum(nn[i] * vm(sp.Integer(0), sp.Integer(i)) for i in range(3)),
+                                         replay=_replay_scale(cls_name, member))
                 except (paths.OutOfReach, AttributeError, IndexError, TypeError) as e:
                     chk.out_of_reach.append(f"{tag}: linear-system row not extracted ({e})")
                 if member in ("circumsphere", "circumcircle"):
@@ -345,6 +361,15 @@ def _row_dim(a):
     if isinstance(a, ConcatArr):
         a = a.parts[0]
     return a.axes[0]
+
+
+def _last_row(a):
+    """the single concrete row appended after the symbolic part of a system matrix / right-hand side"""
+    from pyvc.symnp import ConcatArr
+    if not isinstance(a, ConcatArr) or len(a.parts) < 2:
+        raise TypeError("no appended row")
+    last = a.parts[-1]
+    return [to_expr(v) for v in last.inner.reshape(-1)]
 
 
 def _generic_row(a):
